@@ -31,6 +31,7 @@ def main(tier):
     iso = chk.run("R-LR1TABLE", L.isomorphism, repo, cp, ir, floor=24000,
                   control=lambda: L.control_iso(repo, cp, ir))
     err = chk.run("R-ERRCODES", L.error_codes, repo, cp, floor=250)
+    chk.run("R-MARKERROR", L.markerror, repo, floor=5)
     chk.run("R-EXAMPLEFILE", L.examplefile, repo, floor=5)
     chk.run("R-DOCEXAMPLES", L.docexamples, repo, cp, floor=50)
     chk.run("R-LOADER", GR.loader, repo, floor=4)
